@@ -77,7 +77,7 @@ func startC15Watchdog(rc *runCtx, res *RunResult) func() {
 
 // tryDecode decodes data with the typed decoder through the given reader and, if that returns a
 // value, uses the value. Panics are caught and attributed to the decode or the use phase.
-func tryDecode(ct *codecType, data []byte, plan simio.ReadPlan, byteReader bool, pts []s2.Point, cells []s2.Cell, what string) (out decodeOutcome) {
+func tryDecode(ct *codecType, data []byte, plan simio.ReadPlan, shape int, pts []s2.Point, cells []s2.Cell, what string) (out decodeOutcome) {
 	atomic.AddInt64(&c15Progress, 1)
 	c15Current.Store(what)
 	if traceFaults {
@@ -93,7 +93,7 @@ func tryDecode(ct *codecType, data []byte, plan simio.ReadPlan, byteReader bool,
 				Detail: fmt.Sprintf("%s of %s panicked: %v | input: %s | %s", phase, ct.name, x, what, shortStack(st, 6))}
 		}
 	}()
-	r := simio.NewReader(data, plan, byteReader)
+	r := simio.NewShapedReader(data, plan, shape)
 	v, err := ct.decode(r)
 	if err != nil {
 		out.err = true
@@ -151,15 +151,16 @@ func runC15Enum(rc *runCtx) *RunResult {
 		rc.inc("entries_enumerated_completely", 1)
 	}
 	shapes := []struct {
-		br   bool
+		br   int
 		plan simio.ReadPlan
 		name string
 	}{
-		{true, simio.NoReadFaults(), "bytereader"},
-		{false, simio.ReadPlan{FailAt: -1, Chunks: []int{1}}, "plain-1byte"},
+		{simio.ShapeByteReader, simio.NoReadFaults(), "bytereader"},
+		{simio.ShapePlain, simio.ReadPlan{FailAt: -1, Chunks: []int{1}}, "plain-1byte"},
+		{simio.ShapeFile, simio.ReadPlan{FailAt: -1, Chunks: []int{7, 3, 64}}, "file-like(seekable, chunks 7/3/64)"},
 	}
 	seen := map[uint64]struct{}{}
-	try := func(kind string, data []byte, f string, plan simio.ReadPlan, br bool, shapeName string) bool {
+	try := func(kind string, data []byte, f string, plan simio.ReadPlan, br int, shapeName string) bool {
 		rc.inc("evals", 1)
 		rc.inc("fault_"+kind, 1)
 		h := fnv(data) ^ uint64(len(data))<<40
@@ -409,7 +410,7 @@ func runC15Seq(rc *runCtx) *RunResult {
 	}
 	// reader behaviour
 	plan := simio.NoReadFaults()
-	br := !t.Chance(500)
+	br := int(t.Uint(simio.NumShapes))
 	if t.Chance(600) {
 		nc := 1 + int(t.Uint(4))
 		for i := 0; i < nc; i++ {
@@ -434,7 +435,7 @@ func runC15Seq(rc *runCtx) *RunResult {
 		rc.inc("fault_readerror", 1)
 		desc += fmt.Sprintf("read error at %d transient=%v ", plan.FailAt, plan.Transient)
 	}
-	rc.log("%s (%d bytes) -> %s| reader: bytereader=%v chunks=%v eofWithData=%v zeroEvery=%d", ct.name, len(enc), desc, br, plan.Chunks, plan.EOFWithData, plan.ZeroEvery)
+	rc.log("%s (%d bytes) -> %s| reader: shape=%v chunks=%v eofWithData=%v zeroEvery=%d", ct.name, len(enc), desc, br, plan.Chunks, plan.EOFWithData, plan.ZeroEvery)
 	res.Sig = fnv(data) ^ uint64(len(data))<<32 ^ uint64(len(plan.Chunks))
 	res.Nontrivial = len(data) != len(enc) || !bytes.Equal(data, enc) || plan.FailAt >= 0
 	rc.inc("evals", 1)
